@@ -717,3 +717,442 @@ Proof. intros Hb. rewrite b64_encode_spec by exact Hb. apply decode_enc_spec. ex
 
 Theorem decode_encode_raw_roundtrip x : all_bytes_ok x -> b64_decode (encode_raw x) = Some x.
 Proof. intros Hb. rewrite encode_raw_spec by exact Hb. apply decode_enc_spec. exact Hb. Qed.
+
+(* ================================================================== *)
+(* 6. regenerated constants agree with what the model assumes            *)
+
+Definition upto64 : list N := map N.of_nat (seq 0 64).
+
+Lemma nettle_tables_equal_bundled :
+  nettle_enc_tbl = b64_enc_tbl /\ nettle_dec_tbl = b64_dec_tbl /\
+  nettle_decode_length_samples = b64_decode_length_samples /\
+  nettle_encode_length_samples = b64_encode_length_samples.
+Proof. vm_compute. repeat split; reflexivity. Qed.
+
+Lemma header_constants_match_model :
+  b64_enc_tbl = rfc4648_alphabet /\ b64_enc_tbl_static = rfc4648_alphabet /\
+  map BASE64_DECODE_LENGTH upto64 = b64_decode_length_samples /\
+  map BASE64_ENCODE_LENGTH upto64 = b64_encode_length_samples /\
+  map BASE64_ENCODE_RAW_LENGTH upto64 = b64_encode_raw_length_samples /\
+  map base64_encode_len upto64 = b64_squid_encode_len_samples /\
+  BASE64_ENCODE_FINAL_LENGTH = b64_encode_final_length /\
+  b64_enc_word_bytes = 2 /\ b64_dec_word_bytes = 2 /\ b64_dec_bits_bytes = 1.
+Proof. vm_compute. repeat split; reflexivity. Qed.
+
+(* ================================================================== *)
+(* 7. Basic credentials                                                  *)
+
+Lemma span_app_stop {A} (p : A -> bool) a b :
+  forallb p a = true -> match b with [] => True | y :: _ => p y = false end ->
+  span p (a ++ b) = (a, b).
+Proof.
+  intros Ha Hb. induction a as [|x a IH]; cbn [app span].
+  - destruct b as [|y b]; [reflexivity|]. cbn [span]. rewrite Hb. reflexivity.
+  - cbn [forallb] in Ha. apply andb_true_iff in Ha as [Hx Ha]. rewrite Hx, (IH Ha). reflexivity.
+Qed.
+
+Lemma E_graph i : i < 64 -> xisgraph (E i) = true.
+Proof.
+  intros Hi.
+  pose proof (sweep256 (fun i => if i <? 64 then xisgraph (E i) else true) ltac:(vm_compute; reflexivity) i) as H.
+  cbv beta in H. rewrite N.mod_small in H by lia. replace (i <? 64) with true in H by lia. exact H.
+Qed.
+
+Lemma enc_spec_graph x : forallb is_byte x = true -> forallb xisgraph (enc_spec x) = true.
+Proof.
+  revert x. apply (list_ind3 (fun x => forallb is_byte x = true -> forallb xisgraph (enc_spec x) = true)).
+  - reflexivity.
+  - intros a Hb. cbn [forallb] in Hb. apply andb_true_iff in Hb as [Ha _]. apply byte_lt in Ha.
+    cbn [enc_spec forallb]. rewrite !E_graph by lia. reflexivity.
+  - intros a b Hb. cbn [forallb] in Hb. apply andb_true_iff in Hb as [Ha Hb].
+    apply andb_true_iff in Hb as [Hb _]. apply byte_lt in Ha, Hb.
+    cbn [enc_spec forallb]. rewrite !E_graph by lia. reflexivity.
+  - intros a b c r IH Hb. cbn [forallb] in Hb. apply andb_true_iff in Hb as [Ha Hb].
+    apply andb_true_iff in Hb as [Hb Hc]. apply andb_true_iff in Hc as [Hc Hr]. apply byte_lt in Ha, Hb, Hc.
+    cbn [enc_spec forallb]. rewrite !E_graph by lia. rewrite IH by exact Hr. reflexivity.
+Qed.
+
+Lemma forallb_impl {A} (p q : A -> bool) l : (forall x, p x = true -> q x = true) ->
+  forallb p l = true -> forallb q l = true.
+Proof. intros H. rewrite !forallb_forall. intros Hl x Hx. apply H, Hl, Hx. Qed.
+
+Lemma cstr_no_nul s t : forallb (fun c => negb (c =? 0)) s = true -> cstr (s ++ t) = s ++ cstr t.
+Proof.
+  intros Hs. unfold cstr. induction s as [|x s IH]; cbn [app span]; [reflexivity|].
+  cbn [forallb] in Hs. apply andb_true_iff in Hs as [Hx Hs]. rewrite Hx.
+  specialize (IH Hs). destruct (span (fun c : N => negb (c =? 0)) (s ++ t)) as [a b] eqn:E1.
+  cbn [fst] in *. rewrite IH. reflexivity.
+Qed.
+
+Lemma cstr_id s : forallb (fun c => negb (c =? 0)) s = true -> cstr s = s.
+Proof. intros Hs. rewrite <- (app_nil_r s) at 1. rewrite cstr_no_nul by exact Hs. cbn. apply app_nil_r. Qed.
+
+Lemma enc_spec_nonempty x : x <> [] -> exists y r, enc_spec x = y :: r.
+Proof.
+  destruct x as [|a [|b [|c r]]]; intros H; [congruence| | |]; cbn [enc_spec]; eauto.
+Qed.
+
+(* user name = bytes before the first colon, password = bytes after it *)
+Lemma basic_split_first_colon cs u p : ~ In 58 u ->
+  basic_split cs (u ++ 58 :: p) =
+  (if cs then u else map xtolower u, match p with [] => None | _ => Some p end).
+Proof.
+  intros Hu. unfold basic_split.
+  rewrite (span_app_stop (fun c => negb (c =? 58)) u (58 :: p)).
+  - reflexivity.
+  - rewrite forallb_forall. intros x Hx. destruct (x =? 58) eqn:E; [|reflexivity].
+    apply N.eqb_eq in E. subst x. contradiction.
+  - reflexivity.
+Qed.
+
+Lemma basic_split_no_colon cs ct : ~ In 58 ct ->
+  basic_split cs ct = (if cs then ct else map xtolower ct, None).
+Proof.
+  intros Hu. unfold basic_split. rewrite <- (app_nil_r ct) at 1.
+  rewrite (span_app_stop (fun c => negb (c =? 58)) ct []).
+  - reflexivity.
+  - rewrite forallb_forall. intros x Hx. destruct (x =? 58) eqn:E; [|reflexivity].
+    apply N.eqb_eq in E. subst x. contradiction.
+  - exact I.
+Qed.
+
+Definition clean_cred (c : N) : bool := is_byte c && negb (c =? 0) && negb (c =? 13) && negb (c =? 10).
+
+(* the whole path: "<scheme> <white space> base64(user:password) [LF anything]" *)
+Theorem basic_decode_wellformed cs scheme ws u p tail :
+  forallb xisgraph scheme = true -> ws <> [] -> forallb xisspace ws = true ->
+  forallb clean_cred (u ++ 58 :: p) = true -> ~ In 58 u ->
+  (tail = [] \/ exists t, tail = 10 :: t) ->
+  basic_decode cs (scheme ++ ws ++ enc_spec (u ++ 58 :: p) ++ tail) =
+  Some (if cs then u else map xtolower u, match p with [] => None | _ => Some p end).
+Proof.
+  intros Hs Hws0 Hws Hc Hu Ht.
+  set (clear := u ++ 58 :: p) in *.
+  assert (Hb : forallb is_byte clear = true).
+  { revert Hc. apply forallb_impl. intros x. unfold clean_cred. intros H.
+    repeat (apply andb_true_iff in H as [H ?]). exact H. }
+  assert (Hnz : forallb (fun c => negb (c =? 0)) clear = true).
+  { revert Hc. apply forallb_impl. intros x. unfold clean_cred. intros H.
+    repeat (apply andb_true_iff in H as [H ?]). assumption. }
+  assert (Hg : forallb xisgraph (enc_spec clear) = true) by (apply enc_spec_graph; exact Hb).
+  assert (Hne : clear <> []) by (unfold clear; destruct u; discriminate).
+  destruct (enc_spec_nonempty clear Hne) as [y [r Hy]].
+  assert (Hyg : xisgraph y = true).
+  { rewrite Hy in Hg. cbn [forallb] in Hg. apply andb_true_iff in Hg. tauto. }
+  destruct ws as [|s0 ws']; [congruence|].
+  assert (Hs0 : xisspace s0 = true) by (cbn [forallb] in Hws; apply andb_true_iff in Hws; tauto).
+  unfold basic_decode, decodeCleartext.
+  (* the header as a C string *)
+  assert (Hcstr : cstr (scheme ++ (s0 :: ws') ++ enc_spec clear ++ tail) =
+                  scheme ++ (s0 :: ws') ++ enc_spec clear ++ cstr tail).
+  { rewrite !app_assoc. rewrite cstr_no_nul; [reflexivity|].
+    rewrite !forallb_app. rewrite andb_true_iff; split; [rewrite andb_true_iff; split|].
+    - revert Hs. apply forallb_impl. intros x. unfold xisgraph. lia.
+    - revert Hws. apply forallb_impl. intros x. unfold xisspace. lia.
+    - revert Hg. apply forallb_impl. intros x. unfold xisgraph. lia. }
+  rewrite Hcstr.
+  assert (Htail : cstr tail = [] \/ exists t', cstr tail = 10 :: t').
+  { destruct Ht as [-> | [t ->]]; [left; reflexivity|right]. unfold cstr. cbn [span].
+    change (negb (10 =? 0)) with true. cbv iota.
+    destruct (span (fun c : N => negb (c =? 0)) t) as [a b]. cbn [fst]. eauto. }
+  (* trim the scheme token *)
+  rewrite (span_app_stop xisgraph scheme ((s0 :: ws') ++ enc_spec clear ++ cstr tail)); [|exact Hs|].
+  2:{ cbn [app]. unfold xisgraph, xisspace in *. lia. }
+  cbn [snd].
+  (* trim white space *)
+  rewrite (span_app_stop xisspace (s0 :: ws') (enc_spec clear ++ cstr tail)); [|exact Hws|].
+  2:{ rewrite Hy. cbn [app]. unfold xisgraph, xisspace in *. lia. }
+  cbn [snd].
+  (* strtok(eek, "\n") *)
+  assert (Hnl : forallb (fun c => negb (c =? 10)) (enc_spec clear) = true).
+  { revert Hg. apply forallb_impl. intros x. unfold xisgraph. lia. }
+  assert (Htok : strtok_nl_strlen (enc_spec clear ++ cstr tail) = enc_spec clear).
+  { unfold strtok_nl_strlen. rewrite Hy at 1. cbn [app span].
+    replace (y =? 10) with false by (unfold xisgraph in Hyg; lia).
+    cbn [app]. change (y :: r ++ cstr tail) with ((y :: r) ++ cstr tail). rewrite <- Hy.
+    rewrite (span_app_stop (fun c => negb (c =? 10)) (enc_spec clear) (cstr tail)); [reflexivity|exact Hnl|].
+    destruct Htail as [-> | [t' ->]]; [exact I|reflexivity]. }
+  rewrite Htok.
+  rewrite decode_enc_spec by exact Hb.
+  rewrite cstr_id by exact Hnz.
+  replace (existsb (fun c : N => (c =? 13) || (c =? 10)) clear) with false.
+  - unfold clear. rewrite basic_split_first_colon by exact Hu. reflexivity.
+  - symmetry. apply not_true_is_false. intros Hex. apply existsb_exists in Hex as [x [Hin Hx]].
+    rewrite forallb_forall in Hc. specialize (Hc x Hin). unfold clean_cred in Hc. lia.
+Qed.
+
+(* the statement without the "no NUL" restriction is false for the code as it is *)
+Definition nul_witness_user : bytes := [117; 115; 101; 114; 0; 120].   (* "user\0x" *)
+Definition nul_witness_pass : bytes := [112; 97; 115; 115].            (* "pass" *)
+Lemma basic_split_refuted_by_nul :
+  exists u p, ~ In 58 u /\ p <> [] /\ all_bytes_ok (u ++ 58 :: p) /\
+    basic_decode true ([66; 97; 115; 105; 99; 32] ++ enc_spec (u ++ 58 :: p)) = Some ([117; 115; 101; 114], None).
+Proof.
+  exists nul_witness_user, nul_witness_pass. repeat split.
+  - cbn. intros H. repeat (destruct H as [H|H]; [discriminate H|]). exact H.
+  - discriminate.
+Qed.
+
+(* ================================================================== *)
+(* 8. decoding: segmentation independence and white space               *)
+
+Definition uapp (o : bytes) (u : ures) : ures :=
+  match u with UOk o2 => UOk (o ++ o2) | UFail w => UFail (o ++ w) | UAbort w => UAbort (o ++ w) end.
+
+Lemma uapp_nil u : uapp [] u = u.
+Proof. destruct u; reflexivity. Qed.
+
+Lemma ucons_uapp b o u : ucons b (uapp o u) = uapp (b :: o) u.
+Proof. destruct u; reflexivity. Qed.
+
+Lemma dupd_app a : forall ctx b,
+  dupd ctx (a ++ b) =
+  match dupd ctx a with
+  | (c1, UOk o1) => let '(c2, u) := dupd c1 b in (c2, uapp o1 u)
+  | other => other
+  end.
+Proof.
+  induction a as [|x a IH]; intros ctx b; cbn [app dupd].
+  - destruct (dupd ctx b) as [c2 u]. rewrite uapp_nil. reflexivity.
+  - destruct (dstep ctx x) as [c1 s]. destruct s as [| |y|]; try reflexivity.
+    + apply IH.
+    + rewrite IH. destruct (dupd c1 a) as [c2 u]. destruct u as [o|w|w]; cbn [ucons]; try reflexivity.
+      destruct (dupd c2 b) as [c3 u3]. rewrite ucons_uapp. reflexivity.
+Qed.
+
+Definition dres_of (acc : bytes) (r : dctx * ures) : dres :=
+  match r with
+  | (c, UOk o) => if decode_final c then DOk (acc ++ o) else DTrunc (acc ++ o)
+  | (_, UFail w) => DRej (acc ++ w)
+  | (_, UAbort _) => DAbort
+  end.
+
+(* T: the outcome of init; update*; final -- including the bytes stored before a rejection --
+   depends only on the concatenation of the chunks *)
+Theorem decode_chunks_concat chunks : forall ctx acc, dvalid ctx ->
+  decode_chunks ctx chunks acc = dres_of acc (decode_update ctx (concat chunks)).
+Proof.
+  induction chunks as [|s r IH]; intros ctx acc Hv; cbn [decode_chunks concat].
+  - cbn [decode_update dres_of]. rewrite app_nil_r. reflexivity.
+  - destruct (decode_update ctx s) as [c1 u1] eqn:E1.
+    pose proof (decode_update_acct s ctx c1 u1 Hv E1) as [Hv1 [Hna _]].
+    rewrite (decode_update_dupd (s ++ concat r)) by exact Hv. rewrite dupd_app.
+    rewrite <- (decode_update_dupd s) by exact Hv. rewrite E1.
+    destruct u1 as [o1|w1|w1].
+    + rewrite IH by exact Hv1. rewrite (decode_update_dupd (concat r)) by exact Hv1.
+      destruct (dupd c1 (concat r)) as [c2 u2]. destruct u2; cbn [uapp dres_of]; rewrite ?app_assoc; reflexivity.
+    + reflexivity.
+    + reflexivity.
+Qed.
+
+Lemma dupd_strip_ws src : forallb is_byte src = true -> forall ctx, dupd ctx src = dupd ctx (strip_ws src).
+Proof.
+  induction src as [|c r IH]; intros Hb ctx; [reflexivity|].
+  cbn [forallb] in Hb. apply andb_true_iff in Hb as [Hc Hr]. apply byte_lt in Hc.
+  unfold strip_ws. cbn [filter]. fold (strip_ws r).
+  destruct (b64_ws c) eqn:Ew; cbn [negb].
+  - cbn [dupd]. unfold dstep. apply (dec_ws_iff c Hc) in Ew. rewrite Ew.
+    change (-2 =? -1)%Z with false. change (-2 =? -2)%Z with true. cbv iota. apply IH. exact Hr.
+  - cbn [dupd]. destruct (dstep ctx c) as [c1 s]. destruct s; try reflexivity; rewrite IH by exact Hr; reflexivity.
+Qed.
+
+(* T: any cutting of any white-space-interleaved RFC 4648 encoding of x decodes to exactly x *)
+Theorem decode_wellformed_any_segmentation chunks x :
+  all_bytes_ok x -> all_bytes_ok (concat chunks) -> strip_ws (concat chunks) = enc_spec x ->
+  decode_chunks dctx_init chunks [] = DOk x.
+Proof.
+  intros Hx Hc Hs. rewrite decode_chunks_concat by exact dvalid_init.
+  rewrite decode_update_dupd by exact dvalid_init. rewrite dupd_strip_ws by exact Hc. rewrite Hs.
+  destruct (dupd_enc_spec x Hx 0) as [c' [Hd Hz]]. unfold dctx_init. rewrite Hd.
+  cbn [dres_of]. unfold decode_final. rewrite Hz. reflexivity.
+Qed.
+
+(* ================================================================== *)
+(* 9. exactly which inputs are accepted                                  *)
+
+Definition A3 : bytes := [65; 61; 61; 61].  (* "A===" *)
+
+Lemma dstep_inv ctx c : c < 256 -> b64_ws c = false ->
+  (exists d, d < 64 /\ c = E d /\ d_pad ctx = 0 /\
+     dstep ctx c = if d_bits ctx =? 0 then (mkD ((d_word ctx * 64 + d) mod 65536) 6 0, SNone)
+                   else (mkD ((d_word ctx * 64 + d) mod 65536) (d_bits ctx - 2) 0,
+                         SByte ((((d_word ctx * 64 + d) mod 65536) / 2 ^ (d_bits ctx - 2)) mod 256)))
+  \/ (c = PAD /\ d_bits ctx <> 0 /\ d_pad ctx <= 2 /\ d_word ctx mod 2 ^ d_bits ctx = 0 /\
+      dstep ctx c = (mkD (d_word ctx) (d_bits ctx - 2) (d_pad ctx + 1), SNone))
+  \/ dstep ctx c = (ctx, SErr).
+Proof.
+  intros Hc Hws. unfold dstep.
+  pose proof (dec_tbl_range c) as Hr. pose proof (dec_ws_iff c Hc) as Hwi.
+  destruct (dec_lookup c =? -1)%Z eqn:E1; [right; right; reflexivity|].
+  destruct (dec_lookup c =? -2)%Z eqn:E2.
+  { exfalso. assert (b64_ws c = true) by (apply Hwi; lia). congruence. }
+  destruct (dec_lookup c =? -3)%Z eqn:E3.
+  - destruct ((d_bits ctx =? 0) || (2 <? d_pad ctx) || negb (d_word ctx mod 2 ^ d_bits ctx =? 0)) eqn:Ec;
+      [right; right; reflexivity|].
+    right; left. apply orb_false_iff in Ec as [Ec Ew]. apply orb_false_iff in Ec as [Eb Ep].
+    apply negb_false_iff, N.eqb_eq in Ew. apply N.eqb_neq in Eb. apply N.ltb_ge in Ep.
+    repeat split; auto. apply dec_end_inv; [exact Hc|lia].
+  - destruct (negb (d_pad ctx =? 0)) eqn:Ep; [right; right; reflexivity|].
+    left. exists (Z.to_N (dec_lookup c)). apply negb_false_iff, N.eqb_eq in Ep.
+    repeat split; auto; [lia|apply dec_data_inv; [exact Hc|lia]].
+Qed.
+
+Lemma ucons_ok_inv (c2 : dctx) b u (c' : dctx) o : (c2, ucons b u) = (c', UOk o) ->
+  c2 = c' /\ exists o2, u = UOk o2 /\ o = b :: o2.
+Proof. destruct u; cbn [ucons]; intros H; inversion H; subst. eauto. Qed.
+
+Lemma dupd_cons_inv ctx c r c' o : c < 256 -> b64_ws c = false -> dupd ctx (c :: r) = (c', UOk o) ->
+  (exists d, d < 64 /\ c = E d /\ d_pad ctx = 0 /\ d_bits ctx = 0 /\
+     dupd (mkD ((d_word ctx * 64 + d) mod 65536) 6 0) r = (c', UOk o))
+  \/ (exists d o2, d < 64 /\ c = E d /\ d_pad ctx = 0 /\ d_bits ctx <> 0 /\
+        o = ((((d_word ctx * 64 + d) mod 65536) / 2 ^ (d_bits ctx - 2)) mod 256) :: o2 /\
+        dupd (mkD ((d_word ctx * 64 + d) mod 65536) (d_bits ctx - 2) 0) r = (c', UOk o2))
+  \/ (c = PAD /\ d_bits ctx <> 0 /\ d_pad ctx <= 2 /\ d_word ctx mod 2 ^ d_bits ctx = 0 /\
+      dupd (mkD (d_word ctx) (d_bits ctx - 2) (d_pad ctx + 1)) r = (c', UOk o)).
+Proof.
+  intros Hc Hws H. cbn [dupd] in H.
+  destruct (dstep_inv ctx c Hc Hws) as [[d [Hd [He [Hp Hs]]]] | [[He [Hb [Hp [Hm Hs]]]] | Hs]];
+    rewrite Hs in H.
+  - destruct (d_bits ctx =? 0) eqn:Eb.
+    + left. exists d. apply N.eqb_eq in Eb. repeat split; auto.
+    + right; left. apply N.eqb_neq in Eb.
+      match type of H with context [dupd ?st r] => destruct (dupd st r) as [c2 u] eqn:E2 end.
+      apply ucons_ok_inv in H as [-> [o2 [-> ->]]].
+      exists d, o2. repeat split; auto.
+  - right; right. repeat split; auto.
+  - discriminate H.
+Qed.
+
+Lemma dupd_nil_inv ctx c' o : dupd ctx [] = (c', UOk o) -> c' = ctx /\ o = [].
+Proof. cbn [dupd]. intros H. inversion H. auto. Qed.
+
+Definition noWs (s : bytes) : Prop := forallb (fun c => negb (b64_ws c)) s = true.
+
+Ltac inv_step H Hc Hw :=
+  let d := fresh "d" in let o2 := fresh "o" in
+  let Hd := fresh "Hd" in let He := fresh "He" in let Hp := fresh "Hp" in let Hb := fresh "Hb" in
+  let Hn := fresh "Hn" in let Ho := fresh "Ho" in let Hm := fresh "Hm" in
+  destruct (dupd_cons_inv _ _ _ _ _ Hc Hw H)
+    as [(d & Hd & He & Hp & Hb & Hn) | [(d & o2 & Hd & He & Hp & Hb & Ho & Hn) | (He & Hb & Hp & Hm & Hn)]];
+  cbn [d_bits d_word d_pad] in *; try (exfalso; lia); clear H.
+
+Ltac split_char Hb Hw c :=
+  let Hc := fresh "Hc" c in let Hwc := fresh "Hw" c in
+  cbn [forallb] in Hb, Hw; apply andb_true_iff in Hb as [Hc Hb]; apply andb_true_iff in Hw as [Hwc Hw];
+  apply byte_lt in Hc; apply negb_true_iff in Hwc.
+
+(* once padding has brought bits to 0 nothing more is accepted *)
+Lemma dupd_after_padding w p s c' o : 1 <= p -> forallb is_byte s = true -> noWs s ->
+  dupd (mkD w 0 p) s = (c', UOk o) -> s = [] /\ o = [].
+Proof.
+  intros Hp Hb Hw H. destruct s as [|c s]; [apply dupd_nil_inv in H; tauto|].
+  unfold noWs in Hw. split_char Hb Hw c. inv_step H Hcc Hwc.
+Qed.
+
+Lemma dupd_accept_shape n : forall s, (length s <= n)%nat -> forallb is_byte s = true -> noWs s ->
+  forall w c' o, dupd (mkD w 0 0) s = (c', UOk o) -> d_bits c' = 0 ->
+  s = enc_spec o \/ (s = enc_spec o ++ A3 /\ lenN o mod 3 = 0).
+Proof.
+  induction n as [|n IH]; intros s Hl Hb Hw w c' o H Hz.
+  { destruct s; [|cbn in Hl; lia]. apply dupd_nil_inv in H as [_ ->]. left; reflexivity. }
+  destruct s as [|c1 s]; [apply dupd_nil_inv in H as [_ ->]; left; reflexivity|].
+  unfold noWs in Hw. split_char Hb Hw c1. inv_step H Hcc1 Hwc1.
+  (* c1 is a symbol; 6 bits buffered *)
+  destruct s as [|c2 s]; [apply dupd_nil_inv in Hn as [-> _]; cbn in Hz; discriminate Hz|].
+  split_char Hb Hw c2. inv_step Hn Hcc2 Hwc2.
+  - (* c2 a symbol: first byte out, 4 bits buffered *)
+    change (6 - 2) with 4 in *.
+    destruct s as [|c3 s]; [apply dupd_nil_inv in Hn0 as [-> _]; cbn in Hz; discriminate Hz|].
+    split_char Hb Hw c3. inv_step Hn0 Hcc3 Hwc3.
+    + (* c3 a symbol: second byte out, 2 bits buffered *)
+      change (4 - 2) with 2 in *.
+      destruct s as [|c4 s]; [apply dupd_nil_inv in Hn as [-> _]; cbn in Hz; discriminate Hz|].
+      split_char Hb Hw c4. inv_step Hn Hcc4 Hwc4.
+      * (* full quantum, recurse *)
+        change (2 - 2) with 0 in *.
+        assert (Hl' : (length s <= n)%nat) by (cbn [length] in Hl; lia).
+        specialize (IH s Hl' Hb Hw _ _ _ Hn0 Hz).
+        subst. rewrite !mod_chain. pow2.
+        match goal with |- context [enc_spec (?a :: ?b :: ?c :: o2)] =>
+          set (x1 := a); set (x2 := b); set (x3 := c) end.
+        assert (Hg : [E d; E d0; E d1; E d2] = grp x1 x2 x3) by (unfold grp, x1, x2, x3; list_E).
+        rewrite enc_spec_cons3, <- Hg. cbn [app].
+        destruct IH as [IH | [IH Hm]]; [left | right].
+        -- rewrite <- IH. reflexivity.
+        -- split; [rewrite IH; reflexivity | cbn [lenN]; lia].
+      * (* c4 = '=' : "xxx=" *)
+        change (2 - 2) with 0 in *. change (0 + 1) with 1 in *.
+        apply dupd_after_padding in Hn0; [|lia|exact Hb|exact Hw]. destruct Hn0 as [-> ->].
+        left. subst. rewrite !mod_chain in *. pow2. cbn [enc_spec]. list_E.
+    + (* c3 = '=' : "xx==" *)
+      change (4 - 2) with 2 in *. change (0 + 1) with 1 in *.
+      destruct s as [|c4 s]; [apply dupd_nil_inv in Hn as [-> _]; cbn in Hz; discriminate Hz|].
+      split_char Hb Hw c4. inv_step Hn Hcc4 Hwc4.
+      change (2 - 2) with 0 in *. change (1 + 1) with 2 in *.
+      apply dupd_after_padding in Hn0; [|lia|exact Hb|exact Hw]. destruct Hn0 as [-> ->].
+      left. subst. rewrite !mod_chain in *. pow2. cbn [enc_spec]. list_E.
+  - (* c2 = '=' : only "A===" *)
+    change (6 - 2) with 4 in *. change (0 + 1) with 1 in *.
+    destruct s as [|c3 s]; [apply dupd_nil_inv in Hn0 as [-> _]; cbn in Hz; discriminate Hz|].
+    split_char Hb Hw c3. inv_step Hn0 Hcc3 Hwc3.
+    change (4 - 2) with 2 in *. change (1 + 1) with 2 in *.
+    destruct s as [|c4 s]; [apply dupd_nil_inv in Hn as [-> _]; cbn in Hz; discriminate Hz|].
+    split_char Hb Hw c4. inv_step Hn Hcc4 Hwc4.
+    change (2 - 2) with 0 in *. change (2 + 1) with 3 in *.
+    apply dupd_after_padding in Hn0; [|lia|exact Hb|exact Hw]. destruct Hn0 as [-> ->].
+    right. pow2. assert (d = 0) by lia. subst. split; reflexivity.
+Qed.
+
+Lemma strip_ws_props src : forallb is_byte src = true ->
+  forallb is_byte (strip_ws src) = true /\ noWs (strip_ws src).
+Proof.
+  intros Hb. unfold noWs, strip_ws. split.
+  - rewrite forallb_forall in *. intros x Hx. apply filter_In in Hx as [Hx _]. apply Hb, Hx.
+  - rewrite forallb_forall. intros x Hx. apply filter_In in Hx as [_ Hx]. exact Hx.
+Qed.
+
+(* T: the accepted language, exactly (modulo the white space the decoder skips by design):
+   an accepted input is the RFC 4648 encoding of what was decoded, or that encoding of a whole
+   number of quanta followed by the non-canonical "A===" *)
+Theorem accepted_language_exact src out : all_bytes_ok src -> b64_decode src = Some out ->
+  strip_ws src = enc_spec out \/ (strip_ws src = enc_spec out ++ A3 /\ lenN out mod 3 = 0).
+Proof.
+  unfold all_bytes_ok, b64_decode. intros Hb H.
+  rewrite decode_update_dupd in H by exact dvalid_init.
+  rewrite dupd_strip_ws in H by exact Hb.
+  destruct (dupd dctx_init (strip_ws src)) as [c u] eqn:E. destruct u as [o|w|w]; try discriminate H.
+  unfold decode_final in H. destruct (d_bits c =? 0) eqn:Ez; [|discriminate H].
+  inversion H; subst o. apply N.eqb_eq in Ez.
+  destruct (strip_ws_props src Hb) as [Hb' Hw'].
+  exact (dupd_accept_shape (length (strip_ws src)) (strip_ws src) (le_n _) Hb' Hw' 0 c out E Ez).
+Qed.
+
+Theorem malformed_rejected_partial src out : all_bytes_ok src -> b64_decode src = Some out ->
+  (forall o, strip_ws src <> enc_spec o ++ A3) -> strip_ws src = enc_spec out.
+Proof.
+  intros Hb H Hq. destruct (accepted_language_exact src out Hb H) as [He | [He _]]; [exact He|].
+  exfalso. exact (Hq out He).
+Qed.
+
+Lemma strict_rejection_refuted :
+  exists src out, all_bytes_ok src /\ b64_decode src = Some out /\ strip_ws src <> enc_spec out.
+Proof. exists A3, []. repeat split. discriminate. Qed.
+
+(* a byte outside alphabet, '=' and white space anywhere in the input: never accepted *)
+Lemma dupd_invalid c src : In c src -> dec_lookup c = (-1)%Z ->
+  forall ctx, match snd (dupd ctx src) with UOk _ => False | _ => True end.
+Proof.
+  intros Hin Hd. induction src as [|x r IH]; [destruct Hin|]. intros ctx. cbn [dupd].
+  destruct Hin as [-> | Hin].
+  - unfold dstep. rewrite Hd. change (-1 =? -1)%Z with true. cbv iota. exact I.
+  - destruct (dstep ctx x) as [c1 s]. destruct s as [| |b|]; cbn [snd]; try exact I.
+    + apply IH, Hin.
+    + specialize (IH Hin c1). destruct (dupd c1 r) as [c2 u]. cbn [snd] in *. destruct u; cbn [ucons]; auto.
+Qed.
+
+Theorem invalid_character_rejected c src : In c src -> dec_lookup c = (-1)%Z -> b64_decode src = None.
+Proof.
+  intros Hin Hd. unfold b64_decode. rewrite decode_update_dupd by exact dvalid_init.
+  pose proof (dupd_invalid c src Hin Hd dctx_init) as H.
+  destruct (dupd dctx_init src) as [c1 u]. cbn [snd] in H. destruct u; [destruct H|reflexivity|reflexivity].
+Qed.
